@@ -117,8 +117,17 @@ def self_validate(prop, rules):
             if os.path.exists(mp_):
                 meta = json.load(open(mp_))
                 variants.append(("patch", sid, os.path.join(seeded, sid, "patch.diff"), meta.get("property"), None, None))
+    refactors = os.path.join(VERIF, "refactors")
+    if os.path.isdir(refactors):
+        for rid in sorted(os.listdir(refactors)):
+            pf = os.path.join(refactors, rid, "patch.diff")
+            if os.path.exists(pf):
+                variants.append(("patch", rid, pf, "<silent>", None, None))
     jobs = []
     for v in variants:
+        if v[0] == "patch" and v[3] == "<silent>":
+            jobs.append((v, "silent"))
+            continue
         if v[0] == "edit":
             e = expect.get(v[1])
             if e is None:
